@@ -34,7 +34,11 @@ pub(super) fn add_months(date: NaiveDate, delta_months: i32) -> Option<NaiveDate
         return Some(date);
     }
 
-    let total_months = date.year() * 12 + (date.month0() as i32) + delta_months;
+    let total_months = date
+        .year()
+        .checked_mul(12)?
+        .checked_add(date.month0() as i32)?
+        .checked_add(delta_months)?;
     let new_year = total_months.div_euclid(12);
     let new_month = (total_months.rem_euclid(12) + 1) as u32;
 
